@@ -93,7 +93,7 @@ func (x *Exec) storeLE(st *State, s Term, v Term, nbytes int, big bool) {
 		}
 		arr = Store(arr, bvBin("bvadd", SlOff(s), BVInt(int64(i), 64)), b)
 	}
-	x.noteWrite(SlBase(s))
+	x.noteWrite(SlBase(s), r)
 	x.heapSet(st, r, Store(h, SlBase(s), arr))
 }
 
@@ -215,8 +215,8 @@ func (x *Exec) model(fr *Frame, st *State, fn *ssa.Function, args []Val, site ss
 		if !ok {
 			return nil, false, nil
 		}
-		bits, ok := x.keyBits(pt.Elem())
-		if !ok || bits%8 != 0 {
+		bits, ok := binBits(pt.Elem())
+		if !ok || bits%8 != 0 || bits > 8*65536 {
 			return nil, false, nil
 		}
 		big := strings.Contains(call.Call.Args[1].Type().String(), "bigEndian")
@@ -300,6 +300,83 @@ func (x *Exec) model(fr *Frame, st *State, fn *ssa.Function, args []Val, site ss
 		tid := BVInt(int64(x.C.TypeID(types.Universe.Lookup("error").Type())), 32)
 		errv := Ite(enough, x.C.zeroOfSort(SIface, nil), App(SIface, "mk-iface", tid, eid))
 		return []Val{bvTV(x.C.Name("brerr", errv), fn.Signature.Results().At(0).Type())}, true, nil
+	case "io.ReadFull":
+		// io.ReadFull(r, buf) for r = *bytes.Buffer / *bytes.Reader: n = min(len(buf), unread) octets are copied and
+		// consumed; err == nil iff n == len(buf) (io.EOF / io.ErrUnexpectedEOF otherwise)
+		call, ok := site.(*ssa.Call)
+		if !ok || len(call.Call.Args) != 2 {
+			return nil, false, nil
+		}
+		rtv, ok := args[0].(TV)
+		if !ok {
+			return nil, false, nil
+		}
+		org, ok := x.ifaceOrigin[rtv.T.S]
+		if !ok {
+			return nil, false, nil
+		}
+		var sName, iName string
+		switch org.Typ.String() {
+		case "*bytes.Buffer":
+			sName, iName = "buf", "off"
+		case "*bytes.Reader":
+			sName, iName = "s", "i"
+		default:
+			return nil, false, nil
+		}
+		x.trust("io.ReadFull on " + org.Typ.String() + " (copies min(len(buf), unread) octets, error iff short)")
+		rp, ok := org.Val.(PtrV)
+		if !ok {
+			return nil, false, nil
+		}
+		x.obligation(fr, site, "nil", st.PC, Not(Eq(rp.Base, BVInt(0, 32))), "io.ReadFull on a nil reader")
+		x.C.Assume(Implies(x.absPC(st.PC), Not(Eq(rp.Base, BVInt(0, 32)))), "continuing past nil check")
+		rst := org.Typ.Underlying().(*types.Pointer).Elem().Underlying().(*types.Struct)
+		fld := func(name string) (PtrV, types.Type, bool) {
+			for i := 0; i < rst.NumFields(); i++ {
+				if rst.Field(i).Name() == name {
+					p := rp
+					p.Path = append(append([]Step{}, rp.Path...), Step{IsField: true, Field: i})
+					p.Typ = types.NewPointer(rst.Field(i).Type())
+					return p, rst.Field(i).Type(), true
+				}
+			}
+			return PtrV{}, nil, false
+		}
+		sPtr, _, ok1 := fld(sName)
+		iPtr, iTyp, ok2 := fld(iName)
+		if !ok1 || !ok2 {
+			return nil, false, nil
+		}
+		sv, err := x.Load(st, sPtr)
+		if err != nil {
+			return nil, true, err
+		}
+		iv, err := x.Load(st, iPtr)
+		if err != nil {
+			return nil, true, err
+		}
+		s, i := sv.(TV).T, iv.(TV).T
+		x.C.Assume(Implies(x.absPC(st.PC), And(bvCmp("bvsge", i, BVInt(0, 64)), bvCmp("bvsle", i, SlLen(s)))), "library invariant: read offset within the buffer")
+		dst := args[1].(TV).T
+		avail := x.C.Name("rfavail", bvBin("bvsub", SlLen(s), i))
+		want := SlLen(dst)
+		full := x.C.Name("rffull", bvCmp("bvsle", want, avail))
+		n := x.C.Name("rfn", Ite(full, want, avail))
+		if err := x.Store(st, iPtr, TV{T: x.C.Name("rfi", bvBin("bvadd", i, n)), Typ: iTyp}); err != nil {
+			return nil, true, err
+		}
+		r, hs := x.elemRegion(types.Typ[types.Uint8])
+		h := x.heapGet(st, r, hs)
+		srcArr := x.C.Name("rfsrc", Select(h, SlBase(s)))
+		narr := x.copyElems(Select(h, SlBase(dst)), SlOff(dst), srcArr, bvBin("bvadd", SlOff(s), i), n)
+		x.noteWrite(SlBase(dst), r)
+		x.heapSet(st, r, Ite(Eq(n, BVInt(0, 64)), h, Store(h, SlBase(dst), narr)))
+		eid := x.C.Fresh("err", SBV(64))
+		x.C.Assume(Not(Eq(eid, BVInt(0, 64))), "error values are non-nil")
+		tid := BVInt(int64(x.C.TypeID(types.Universe.Lookup("error").Type())), 32)
+		errv := Ite(full, x.C.zeroOfSort(SIface, nil), App(SIface, "mk-iface", tid, eid))
+		return []Val{bvTV(n, types.Typ[types.Int]), bvTV(x.C.Name("rferr", errv), fn.Signature.Results().At(1).Type())}, true, nil
 	case "math.Sqrt":
 		x.C.Note("math.Sqrt is an uninterpreted function")
 		return []Val{bvTV(App(SF64, "f64_sqrt", T(0)), types.Typ[types.Float64])}, true, nil
@@ -342,6 +419,13 @@ func (x *Exec) fromBytes(t types.Type, arr, off Term, at int64, big bool) (Term,
 		}
 		return *cur, n
 	case *types.Array:
+		if b, ok := u.Elem().Underlying().(*types.Basic); ok && b.Kind() == types.Uint8 && u.Len() > 64 {
+			// long octet array: element k is source octet off+at+k (octets past the array length are never read)
+			x.C.usesLambda = true
+			src := bvBin("bvadd", off, BVInt(at, 64))
+			lam := Raw(SArr(SIdx, SBV(8)), fmt.Sprintf("(lambda ((k!fb (_ BitVec 64))) (select %s (bvadd %s k!fb)))", arr.S, src.S))
+			return x.C.Name("fbl", lam), u.Len()
+		}
 		es := x.C.SortOf(u.Elem())
 		out := ConstArray(SArr(SIdx, es), x.C.Zero(u.Elem()))
 		used := int64(0)
@@ -433,4 +517,34 @@ func (x *Exec) bytesCompare(st *State, a, b Term) (Term, error) {
 	c := x.C.Fresh("bcmp", SIdx)
 	x.C.Assume(And(Or(Eq(c, BVInt(-1, 64)), Eq(c, BVInt(0, 64)), Eq(c, BVInt(1, 64))), Eq(Eq(c, BVInt(0, 64)), eq)), "bytes.Compare abstract contract")
 	return c, nil
+}
+
+// binBits: encoded size in bits of a fixed-size value as encoding/binary sees it (no padding).
+func binBits(t types.Type) (int, bool) {
+	switch u := t.Underlying().(type) {
+	case *types.Basic:
+		if w, _ := intWidth(u); w > 0 {
+			return w, true
+		}
+		if u.Kind() == types.Bool {
+			return 8, true
+		}
+	case *types.Array:
+		w, ok := binBits(u.Elem())
+		if !ok || u.Len()*int64(w) > 8*65536 {
+			return 0, false
+		}
+		return int(u.Len()) * w, true
+	case *types.Struct:
+		tot := 0
+		for i := 0; i < u.NumFields(); i++ {
+			w, ok := binBits(u.Field(i).Type())
+			if !ok {
+				return 0, false
+			}
+			tot += w
+		}
+		return tot, tot > 0
+	}
+	return 0, false
 }
